@@ -4,7 +4,9 @@ real classes/operators/factories and the Lean model `CtrlVerif.Model.DtOps` (dri
 A case is one cell of the operation table:
   {"k": "mk",     "cfg": c, "a": opnd}
   {"k": "common", "x": dtval, "y": dtval, "sys": 0|1, "near": 0|1}
-  {"k": "bin",    "op": add|sub|mul|div|fb|append, "via": .., "cfg": c, "a": opnd, "b": opnd}
+  {"k": "bin",    "op": add|sub|mul|div|fb|append|lft, "via": .., "cfg": c, "a": opnd, "b": opnd}
+                  (lft: `a` is built as a 2x2 / 3x3 upper system; "lic": upper as LinearICSystem, "m3": 3x3 upper, 2x2 lower)
+  {"k": "fn",     "fn": connect|augw, "cfg": c, "xs": [opnd | None ..][, "m2": 1]}   named block-diagram functions
   {"k": "un",     "op": .., "arg": k|Ts|None, "via": .., "cfg": c, "a": opnd[, "m2": 1]  (m2: 2x2 operand)}
   {"k": "nary",   "fn": series|parallel|append|combine|interconnect, "kw": c|"-", "cfg": c, "xs": [opnd..]}
   {"k": "tree",   "cfg": c, "prog": [tokens]}
@@ -180,6 +182,74 @@ def build_via(opnd, via):
     raise KeyError(via)
 
 
+# ---- lft (strengthening after C05-m6) ---------------------------------------
+UPPER_D2 = [[0.0, 1.0], [1.0, 0.0]]                       # D22 = 0: the LFT is well-posed for every lower system
+UPPER_D3 = [[0.0, 1.0, 1.0], [1.0, 0.0, 0.0], [1.0, 0.0, 0.0]]
+
+
+def build_upper(opnd, lic=False, n=2):
+    """the upper system of `P.lft(K)`: a StateSpace with n inputs / outputs (static or with two states)
+    whose feed-through from the control inputs to the measurement outputs is zero, so that closing the
+    loop with any lower system is well-posed; `lic`: wrapped as a LinearICSystem.  Classes that have no
+    `lft` are built as usual (2x2 where the class has a MIMO form)"""
+    cls, st, kw = opnd.split(":")
+    if cls != "ss":
+        return build(opnd, mimo=cls in ("tf", "frd"))
+    k = {} if kw == "-" else {"dt": kwval(kw)}
+    D = UPPER_D2 if n == 2 else UPPER_D3
+    if st == "1":
+        P = ct.ss([], [], [], D, **k)
+    elif n == 2:
+        P = ct.ss([[0.5, 0.25], [0.0, -0.5]], [[1.0, 0.5], [0.0, 1.0]], [[1.0, 0.0], [0.25, 1.0]], D, **k)
+    else:
+        P = ct.ss([[0.5, 0.25], [0.0, -0.5]], [[1.0, 0.5, 0.0], [0.0, 1.0, 1.0]],
+                  [[1.0, 0.0], [0.25, 1.0], [0.0, 1.0]], D, **k)
+    if lic:
+        io = [(0, i) for i in range(n)]
+        P = ct.interconnect([P], inplist=io, outlist=io)
+    return P
+
+
+# ---- named block-diagram functions built from the tabulated operations (cell kind `fn`) --------
+
+def fn_prog(c):
+    """the composition of tabulated operations that the code of the function performs, as a `dtx`
+    program (model C05Expr.eval): no new timebase rule, only the code's own sequence of calls.
+    connect(sys, Q, inputv, outputv): `sys.feedback(K, sign=1)` with a constant matrix K, then
+      `Ytrim * sys * Utrim` with constant matrices.
+    augw(g, w1, w2, w3): each weight `ss(w)` unless a StateSpace, `append(w)` (SISO plant: one copy), a
+      missing weight is `ss([], [], [], [])`; `g = ss(g)` unless a StateSpace; `append(w1, w2, w3, Ie, g, Iu)`
+      with static Ie, Iu created without dt; then connect."""
+    def connect(prog):
+        return ["array"] + prog + ["array", "fb", "bin=mul", "array", "bin=mul"]
+    if c["fn"] == "connect":
+        return connect([c["xs"][0]])
+    if c["fn"] == "augw":
+        g, ws = c["xs"][0], c["xs"][1:]
+        prog = []
+        for w in ws:
+            if w is None:
+                prog += ["ss:1:-"]
+            else:
+                prog += [w] + ([] if w.startswith("ss:") else ["un=toSS"]) + ["append=1"]
+        prog += ["ss:1:-", g] + ([] if g.startswith("ss:") else ["un=toSS"]) + ["ss:1:-", "append=6"]
+        return connect(prog)
+    raise ValueError(c["fn"])
+
+
+def run_fn(c, ops):
+    with warnings.catch_warnings():
+        warnings.simplefilter("ignore")                  # connect is deprecated
+        if c["fn"] == "connect":
+            if c.get("m2"):
+                return ct.connect(ops[0], [[2, -2]], [1], [1])
+            return ct.connect(ops[0], [[1, -1]], [1], [1])
+        if c["fn"] == "augw":
+            return ct.augw(*ops)
+    raise ValueError(c["fn"])
+# ---- end lft / fn -----------------------------------------------------------
+
+
 CLSNAME = {"StateSpace": "ss", "TransferFunction": "tf", "FrequencyResponseData": "frd",
            "NonlinearIOSystem": "nl", "InterconnectedSystem": "ic", "LinearICSystem": "ic"}
 
@@ -233,6 +303,8 @@ def run_bin(op, via, a, b):
         return a.feedback(b) if via == "method" else ct.feedback(a, b)
     if op == "append":
         return a.append(b) if via == "method" else ct.append(a, b)
+    if op == "lft":                                   # (strengthening after C05-m6)
+        return a.lft(b, 1, 1) if via == "nuny" else a.lft(b)
     raise ValueError(op)
 
 
@@ -244,6 +316,10 @@ def run_un(op, arg, via, s):
     if op == "pow":
         return s ** int(arg)
     if op == "getitem":
+        if via == "split":                            # split_tf: every block re-created with `dt=T.dt`
+            blocks = ct.split_tf(s)
+            odd = [b for b in blocks.flat if exact.dt_canon(b.dt) != exact.dt_canon(s.dt)]
+            return odd[0] if odd else blocks[-1, 0]      # a block that lost the timebase, if any
         return s[getitem_key(via, s)]
     if op == "copy":
         return copy.deepcopy(s) if via == "deepcopy" else s.copy()
@@ -456,7 +532,12 @@ class C05(Family):
             "form of two-index key (F[i, j], F[i, :], reversed / full slices, index lists, signal names, "
             "negative indices) of SISO and 2x2 ss / tf / frd systems under every default_dt; and "
             "append(a, b)[0, 0] <op> c for every ordered triple of timebases (a block of a MIMO system "
-            "combined onward).  A cell is non-trivial when at "
+            "combined onward).  StateSpace.lft: every StateSpace upper-system variant x every lower operand "
+            "variant of every kind x every default_dt (default / explicit nu, ny; LinearICSystem upper; 3x3 upper "
+            "with 2x2 lower; classes without lft must raise), lft results combined onward / upper systems built "
+            "by append, sampling, unary operations / nested lfts for every ordered triple of timebases, lft "
+            "nodes in the random trees; connect / augw (against the composition of tabulated operations their "
+            "code performs) and split_tf.  A cell is non-trivial when at "
             "least one operand has a specified timebase (not None)")
 
     # ---- generation -------------------------------------------------------
@@ -584,7 +665,7 @@ class C05(Family):
             for cls in ("ss", "tf", "frd"):
                 for a in self.operand_variants(cls):
                     for mimo in (0, 1):
-                        for via in GETITEM_VIAS:
+                        for via in GETITEM_VIAS + (["split"] if (cls == "tf" and mimo) else []):
                             if via == "op" and not mimo:
                                 continue                       # already in un_cells
                             if frac < 1.0 and rng.random() > frac:
@@ -594,6 +675,79 @@ class C05(Family):
                                 c["m2"] = 1
                             cells.append(c)
         return cells
+
+    # ---- lft / named functions (strengthening after C05-m6) --------------------
+    def lft_cells(self, rng, tier):
+        """`P.lft(K)` (StateSpace.lft, a binary operation outside the operator table): every StateSpace
+        upper-system variant (5 explicit timebases, dt omitted, static with / without dt) x every lower
+        operand variant of every kind (StateSpace, TransferFunction, FRD, non-linear, interconnected,
+        scalar, ndarray) x every default_dt, called with default and explicit (nu, ny); the upper system
+        as LinearICSystem; a 3x3 upper system closed with a 2x2 lower one; and the classes that have no
+        `lft` (spot: must raise)"""
+        quick = tier == "quick"
+        lowers = []
+        for cb in list(CLASSES) + ["scalar", "array"]:
+            lowers += self.operand_variants(cb)
+        uppers = self.operand_variants("ss")
+        cells = []
+        for cfg in CFGS:
+            for a in uppers:
+                for b in lowers:
+                    vias = ["method", "nuny"] if (not quick or cfg == "Q0") else [rng.choice(["method", "nuny"])]
+                    for via in vias:
+                        cells.append({"k": "bin", "op": "lft", "via": via, "cfg": cfg, "a": a, "b": b})
+            for ta in EXPL_TOK + ["-"]:                   # upper system given as a LinearICSystem
+                for b in lowers:
+                    if quick and rng.random() > 0.5:
+                        continue
+                    cells.append({"k": "bin", "op": "lft", "via": "method", "cfg": cfg, "a": "ss:0:" + ta, "b": b,
+                                  "lic": [1, 0]})
+            for a in uppers:                              # 3x3 upper, 2x2 lower (nu = ny = 2)
+                for cb in ("ss", "frd", "array"):
+                    for b in self.operand_variants(cb):
+                        if quick and cfg != "Q0" and rng.random() > 0.5:
+                            continue
+                        cells.append({"k": "bin", "op": "lft", "via": "method", "cfg": cfg, "a": a, "b": b, "m3": 1})
+        for ca in ("tf", "frd", "nl", "ic"):              # no `lft` attribute
+            for a in self.operand_variants(ca):
+                for b in ["ss:0:" + t for t in EXPL_TOK] + ["scalar"]:
+                    if rng.random() > (0.2 if quick else 1.0):
+                        continue
+                    cells.append({"k": "bin", "op": "lft", "via": "method", "cfg": rng.choice(CFGS), "a": a, "b": b})
+        return cells
+
+    def fn_cells(self, rng, tier):
+        """named block-diagram functions that combine systems by calling the tabulated operations:
+        connect(sys, Q, inputv, outputv) on every variant of ss (SISO and 2x2) / tf / frd / nl under every
+        default_dt; augw(g, w1, w2, w3) for every ordered triple of timebases (plant, two weights; the third
+        weight absent or a fixed one) over ss / tf patterns"""
+        quick = tier == "quick"
+        cells = []
+        for cfg in CFGS:
+            for cls in ("ss", "tf", "frd", "nl"):
+                for a in self.operand_variants(cls):
+                    cells.append({"k": "fn", "fn": "connect", "cfg": cfg, "xs": [a]})
+                    if cls == "ss":
+                        cells.append({"k": "fn", "fn": "connect", "cfg": cfg, "xs": [a], "m2": 1})
+        pats = [("ss", "tf", "ss", None), ("tf", "ss", None, "tf"), ("ss", None, "tf", "ss"), ("tf", "tf", "tf", None)]
+        i = 0
+        for pat in pats:
+            for ta in EXPL_TOK:
+                for tb in EXPL_TOK:
+                    for tc in EXPL_TOK:
+                        it = iter((ta, tb, tc))
+                        xs = [None if cl is None else "%s:0:%s" % (cl, next(it)) for cl in pat]
+                        cfgs = CFGS if not quick else [CFGS[i % len(CFGS)]]
+                        i += 1
+                        for cfg in cfgs:
+                            cells.append({"k": "fn", "fn": "augw", "cfg": cfg, "xs": xs})
+        for cfg in CFGS:                                  # dt omitted / static weights
+            for g in ("ss:0:-", "tf:0:-", "ss:0:" + kwtok(0.1)):
+                for w in ("ss:1:-", "tf:1:-", "tf:0:-", "ss:1:T"):
+                    cells.append({"k": "fn", "fn": "augw", "cfg": cfg, "xs": [g, w, None, None]})
+                    cells.append({"k": "fn", "fn": "augw", "cfg": cfg, "xs": [g, None, w, "tf:0:N"]})
+        return cells
+    # ---- end lft / named functions ------------------------------------------------
 
     def rnd_opnd(self, rng, classes=CLASSES, consts=True):
         r = rng.random()
@@ -725,6 +879,11 @@ class C05(Family):
             {"k": "un", "op": "getitem", "arg": None, "via": "row", "cfg": "Q0", "a": "frd:0:N", "m2": 1},
             {"k": "mk", "cfg": "T", "a": "frd:0:N", "via": "classpos"},
             {"k": "un", "op": "toFRD", "arg": None, "via": "class", "cfg": "Q0", "a": "frd:0:N"},
+            # lft: a constant interconnection matrix / dt=True closed with a sampled controller; incompatible pairs
+            {"k": "bin", "op": "lft", "via": "method", "cfg": "Q0", "a": "ss:1:-", "b": "ss:0:" + t01},
+            {"k": "bin", "op": "lft", "via": "nuny", "cfg": "Q0", "a": "ss:0:T", "b": "tf:0:" + t01},
+            {"k": "bin", "op": "lft", "via": "method", "cfg": "Q0", "a": "ss:0:Q0", "b": "ss:0:" + t01},
+            {"k": "bin", "op": "lft", "via": "method", "cfg": "Q0", "a": "ss:0:" + t01, "b": "ss:0:" + kwtok(0.25)},
         ] + c05_expr.corpus()
 
     def generate(self, rng, tier):
@@ -740,6 +899,7 @@ class C05(Family):
             for cfg in CFGS[1:]:
                 cells += self.un_cells(cfg, rng)
             cells += self.getitem_cells(rng)
+            cells += self.lft_cells(rng, tier) + self.fn_cells(rng, tier)      # (after C05-m6)
             cells += self.mimo_cells(rng, 0.25)
             cells += self.lic_cells(rng, 0.5)
             cells += self.nary_cells(rng, 350)
@@ -751,6 +911,7 @@ class C05(Family):
             # a second set of timebases: integer sampling times (int and float forms)
             cells += self.bin_cells("Q0", True, rng, toks=[kwtok(v) for v in (None, 0, True, 1, 2.5)])
             cells += self.getitem_cells(rng)
+            cells += self.lft_cells(rng, tier) + self.fn_cells(rng, tier)      # (after C05-m6)
             cells += self.mimo_cells(rng, 1.0)
             cells += self.lic_cells(rng, 1.0)
             cells += self.nary_cells(rng, 3000)
@@ -781,10 +942,12 @@ class C05(Family):
             return "dt tree %s %s" % (c["cfg"], " ".join(c["prog"]))
         if k == "expr":
             return c05_expr.line(c)
+        if k == "fn":
+            return "dtx %s %s" % (c["cfg"], " ".join(fn_prog(c)))
         raise ValueError(k)
 
     def parse_model(self, c, out):
-        if c["k"] == "expr":
+        if c["k"] in ("expr", "fn"):
             return c05_expr.parse_model(c, out)
         t = out.split()
         if t[0] == "err":
@@ -851,6 +1014,11 @@ class C05(Family):
         try:
             if k == "mk" and c.get("via"):
                 ops = [build_via(c["a"], c["via"])]
+            elif k == "bin" and c["op"] == "lft":
+                ops = [build_upper(c["a"], lic=bool(c.get("lic")), n=3 if c.get("m3") else 2),
+                       build(c["b"], mimo=bool(c.get("m3")))]
+            elif k == "fn":
+                ops = [None if x is None else (build_upper(x) if c.get("m2") else build(x)) for x in c["xs"]]
             elif k == "bin" and "mimo" in c:
                 ops = [build(c["a"], bool(c["mimo"][0])), build(c["b"], bool(c["mimo"][1]))]
             elif k == "bin" and "lic" in c:
@@ -875,6 +1043,8 @@ class C05(Family):
             res = {"A": opnd_dt(ops[0])}
             res["R"] = guarded(lambda: run_un(c["op"], c["arg"], c["via"], ops[0]))
             return res
+        if k == "fn":
+            return {"L": [opnd_dt(o) for o in ops if o is not None], "R": guarded(lambda: run_fn(c, ops))}
         if k == "nary":
             res = {"L": [opnd_dt(o) for o in ops]}
             fn = c["fn"]
@@ -924,7 +1094,7 @@ class C05(Family):
         if c["k"] in ("bin", "un"):
             f["op"] = c["op"]
             f["cls"] = c["a"].split(":")[0] + ("/" + c["b"].split(":")[0] if c["k"] == "bin" else "")
-        if c["k"] == "nary":
+        if c["k"] in ("nary", "fn"):
             f["op"] = c["fn"]
         if c["k"] == "expr":
             f["op"] = c05_expr.opset(c)
@@ -1066,8 +1236,8 @@ class C05(Family):
             toks = [c["a"], c["b"]]
         elif k == "un":
             toks = [c["a"]]
-        elif k == "nary":
-            toks = c["xs"]
+        elif k in ("nary", "fn"):
+            toks = [x for x in c["xs"] if x is not None]
         else:
             toks = [t for t in c["prog"] if ":" in t]
         return any(":" in t and t.split(":")[2] != "N" for t in toks)
@@ -1082,8 +1252,10 @@ class C05(Family):
             s["route"] = "%s/%s" % (c["op"], c["via"])
         if c["k"] == "mk":
             s["via"] = c.get("via", "factory")
-        if c["k"] == "nary":
+        if c["k"] in ("nary", "fn"):
             s["op"] = c["fn"]
+        if c["k"] == "bin" and c["op"] == "lft":
+            s["lft"] = "lic" if c.get("lic") else ("3x3" if c.get("m3") else c["via"])
         if "mimo" in c:
             s["mimo"] = "%d%d" % tuple(c["mimo"])
         if "lic" in c:
